@@ -680,16 +680,32 @@ func checkC13(c *Ctx, r *Report) {
 				}
 				nSet++
 				key := fnKey(f) + ":state<-Disconnected"
-				okc := false
-				if f == m.snDisp {
-					for _, gd := range guardsOf(i.Block()) {
+				plainAt := func(site ssa.Instruction) bool {
+					for _, gd := range guardsOf(site.Block()) {
 						x, y, op, isCmp := cmpGuard(gd)
 						if isCmp && op == token.EQL {
 							if kk, isK := constInt(y); isK && kk == 0 && c.valueIsField(x, pkPackets1, "Disconnect", "Duration") {
-								okc = true
+								return true
 							}
 						}
 					}
+					return false
+				}
+				// in place, or in a helper every call of which is under that guard
+				okc := plainAt(i)
+				if !okc && f != m.snDisp {
+					nCall, all := 0, true
+					for _, g2 := range c.repoFuncs("gateway") {
+						allInstrs(g2, func(j ssa.Instruction) {
+							if cj, ok := j.(ssa.CallInstruction); ok && staticCallee(cj.Common()) == f {
+								nCall++
+								if !plainAt(j) {
+									all = false
+								}
+							}
+						})
+					}
+					okc = nCall > 0 && all
 				}
 				r.cond(okc, "R4", key, c.instrPos(i), "set only while handling the client's plain DISCONNECT (Duration == 0)", "the session state is set to Disconnected outside the handling of the client's plain DISCONNECT: the shutdown goroutine then takes the client for one that disconnected itself and does not send the DISCONNECT an active or awake client must receive when the session ends")
 			})
